@@ -1,47 +1,51 @@
 ------------------------------- MODULE FrameMC -------------------------------
 (* Exhaustive enumeration of the frame-condition catalogue:                         *)
 (*  - ChooseCall / ChooseLayouts enumerate catalogue x dimensionality x option x     *)
-(*    layout assignment; every built invocation is exported and executed on the real *)
-(*    function with arguments constructed in exactly that layout;                    *)
+(*    (layout assignment, value-class assignment); every built invocation is exported*)
+(*    and executed on the real function with arguments constructed in exactly that   *)
+(*    layout and holding values of exactly that class;                               *)
 (*  - Invoke is the property-level action: the call returns or raises and every      *)
 (*    argument not documented as in-place is UNCHANGED;                              *)
 (*  - MAcquire / MWork / MReturn are the implementation-shaped path (alias or copy,  *)
-(*    then possibly an in-place conversion of what the callee works on); MechRefines *)
-(*    says that path is a refinement of Invoke.                                      *)
+(*    then possibly an in-place conversion of what the callee works on - for some    *)
+(*    paths only when the VALUES call for it); MechRefines says that path is a        *)
+(*    refinement of Invoke.                                                          *)
 EXTENDS Frame, Json
 
 CONSTANTS Families,        \* families of the catalogue to enumerate
           NDims,           \* dimensionalities to enumerate (subset of 0..2)
-          Pairwise,        \* TRUE: also vary two parameters at once
+          Pairwise,        \* TRUE: also vary two parameters at once (layouts and value classes)
+          ValNDims,        \* dimensionalities in which the value classes are explored
           FixedTextWrite,  \* mechanism variant, see Frame.tla
+          FixedWrap,       \* mechanism variant, see Frame.tla
           DoExport
 
-VARIABLES phase, call, nd, opt, lay, args0, args, outcome, work, ver
-vars == <<phase, call, nd, opt, lay, args0, args, outcome, work, ver>>
+VARIABLES phase, call, nd, opt, lay, val, args0, args, outcome, work, ver
+vars == <<phase, call, nd, opt, lay, val, args0, args, outcome, work, ver>>
 
 C == FrCallNamed(call)
 NP == Len(C.params)
 
 ASSUME Cardinality(FrCallNames) = Cardinality(FrCalls)          \* names identify calls
 
-Init == /\ phase = "start" /\ call = "" /\ nd = 0 /\ opt = "" /\ lay = <<>>
+Init == /\ phase = "start" /\ call = "" /\ nd = 0 /\ opt = "" /\ lay = <<>> /\ val = <<>>
         /\ args0 = <<>> /\ args = <<>> /\ outcome = "" /\ work = <<>> /\ ver = <<>>
 
 ChooseCall ==
     /\ phase = "start"
     /\ \E c \in {x \in FrCalls : x.fam \in Families} : \E d \in c.ndims \cap NDims : \E o \in c.opts :
           call' = c.name /\ nd' = d /\ opt' = o
-    /\ phase' = "call" /\ UNCHANGED <<lay, args0, args, outcome, work, ver>>
+    /\ phase' = "call" /\ UNCHANGED <<lay, val, args0, args, outcome, work, ver>>
 
-\* abstract snapshot of an argument built in layout l
-Snap0(l, d) == [data |-> "d0", base |-> "b0", dtype |-> <<l.kind, l.order>>, flags |-> <<l.contig, d>>]
+\* abstract snapshot of an argument built in layout l holding values of class v
+Snap0(l, d, v) == [data |-> <<"d0", v>>, base |-> <<"b0", v>>, dtype |-> <<l.kind, l.order>>, flags |-> <<l.contig, d>>]
 
 ChooseLayouts ==
     /\ phase = "call"
-    /\ \E a \in FrAssignments(C, nd, Pairwise) :
-          /\ lay' = a
-          /\ args0' = [i \in 1..NP |-> Snap0(a[i], nd)]
-          /\ args' = [i \in 1..NP |-> Snap0(a[i], nd)]
+    /\ \E a \in FrAssignments(C, nd, Pairwise, ValNDims) :
+          /\ lay' = a.lay /\ val' = a.val
+          /\ args0' = [i \in 1..NP |-> Snap0(a.lay[i], nd, a.val[i])]
+          /\ args' = [i \in 1..NP |-> Snap0(a.lay[i], nd, a.val[i])]
           /\ work' = [i \in 1..NP |-> "none"] /\ ver' = [i \in 1..NP |-> 0]
     /\ phase' = "built" /\ UNCHANGED <<call, nd, opt, outcome>>
 
@@ -51,26 +55,26 @@ Invoke ==
     /\ phase = "built"
     /\ outcome' \in {"returned", "raised"}              \* exceptions are fine - the frame condition still applies
     /\ \E W \in SUBSET ((1..NP) \ Protected) :          \* documented in-place arguments may be written
-          args' = [i \in 1..NP |-> IF i \in W THEN [args[i] EXCEPT !.data = "d1", !.base = "b1"] ELSE args[i]]
+          args' = [i \in 1..NP |-> IF i \in W THEN [args[i] EXCEPT !.data = <<"d1", val[i]>>, !.base = <<"b1", val[i]>>] ELSE args[i]]
     /\ phase' = "returned"
-    /\ UNCHANGED <<call, nd, opt, lay, args0, work, ver>>
+    /\ UNCHANGED <<call, nd, opt, lay, val, args0, work, ver>>
 
 \* ---- implementation-shaped path ------------------------------------------------------------
 MAcquire ==
     /\ phase = "built"
-    /\ work' = [i \in 1..NP |-> FrAcquire(C, opt, lay[i], FixedTextWrite)]
-    /\ phase' = "m_acquired" /\ UNCHANGED <<call, nd, opt, lay, args0, args, outcome, ver>>
+    /\ work' = [i \in 1..NP |-> FrAcquire(C, opt, lay[i], FixedTextWrite, FixedWrap)]
+    /\ phase' = "m_acquired" /\ UNCHANGED <<call, nd, opt, lay, val, args0, args, outcome, ver>>
 
 MWork ==
     /\ phase = "m_acquired"
-    /\ ver' = [i \in 1..NP |-> IF work[i] = "alias" /\ FrWritesWork(C, opt, lay[i]) THEN ver[i] + 1 ELSE ver[i]]
-    /\ phase' = "m_worked" /\ UNCHANGED <<call, nd, opt, lay, args0, args, outcome, work>>
+    /\ ver' = [i \in 1..NP |-> IF work[i] = "alias" /\ FrWritesWork(C, opt, lay[i], val[i]) THEN ver[i] + 1 ELSE ver[i]]
+    /\ phase' = "m_worked" /\ UNCHANGED <<call, nd, opt, lay, val, args0, args, outcome, work>>
 
 MReturn ==
     /\ phase = "m_worked"
-    /\ args' = [i \in 1..NP |-> IF ver[i] > 0 THEN [args[i] EXCEPT !.data = "d1", !.base = "b1"] ELSE args[i]]
+    /\ args' = [i \in 1..NP |-> IF ver[i] > 0 THEN [args[i] EXCEPT !.data = <<"d1", val[i]>>, !.base = <<"b1", val[i]>>] ELSE args[i]]
     /\ outcome' = "returned" /\ phase' = "m_returned"
-    /\ UNCHANGED <<call, nd, opt, lay, args0, work, ver>>
+    /\ UNCHANGED <<call, nd, opt, lay, val, args0, work, ver>>
 
 Next == ChooseCall \/ ChooseLayouts \/ Invoke \/ MAcquire \/ MWork \/ MReturn
 NextExport == ChooseCall \/ ChooseLayouts
@@ -87,15 +91,16 @@ FrameAction == [][phase = "built" /\ phase' = "returned" =>
 CatalogueOK == \A c \in FrCalls :
     /\ Len(c.params) >= 1 /\ c.ndims \subseteq 0..2 /\ c.ndims # {} /\ c.opts # {} /\ c.text \subseteq c.opts
     /\ \A i \in DOMAIN c.params : c.params[i].base \in c.params[i].kinds /\ c.params[i].kinds \subseteq FrKinds
+                                    /\ "ord" \in c.params[i].vals /\ c.params[i].vals \subseteq FrVals
     /\ \E i \in DOMAIN c.params : ~c.params[i].mut
     /\ \A i, j \in DOMAIN c.params : i # j => c.params[i].p # c.params[j].p
 
 LayoutsOK == phase \notin {"start", "call"} =>
-    \A i \in 1..NP : lay[i].kind \in C.params[i].kinds /\ FrLayoutOK(lay[i], nd)
+    \A i \in 1..NP : lay[i].kind \in C.params[i].kinds /\ FrLayoutOK(lay[i], nd) /\ FrValOK(C.params[i], lay[i], val[i], nd)
 
 \* ---- export ----------------------------------------------------------------------------------
 Export == (DoExport /\ phase = "built") =>
     PrintT(<<"CASE", ToJson([call |-> call, fam |-> C.fam, nd |-> nd, opt |-> opt,
                              params |-> [i \in 1..NP |-> [p |-> C.params[i].p, role |-> C.params[i].role,
-                                                          mut |-> C.params[i].mut, lay |-> lay[i]]]])>>)
+                                                          mut |-> C.params[i].mut, lay |-> lay[i], val |-> val[i]]]])>>)
 =============================================================================
